@@ -182,3 +182,18 @@ func RootFn(fn *ssa.Function) *ssa.Function {
 	}
 	return fn
 }
+
+// StoresTo returns the stores whose address is exactly the given cell (an Alloc or other address value).
+func StoresTo(addr ssa.Value) []*ssa.Store {
+	var out []*ssa.Store
+	refs := addr.Referrers()
+	if refs == nil {
+		return nil
+	}
+	for _, r := range *refs {
+		if st, ok := r.(*ssa.Store); ok && st.Addr == addr {
+			out = append(out, st)
+		}
+	}
+	return out
+}
